@@ -68,7 +68,7 @@ def stmt(rng, ints, bools, profile="full", lhs=None, narrow=None):
         # backward-analysis profile (C11): invertible and NON-invertible assignments: division and multiplication by
         # small constants of either sign, x := x + k with x on both sides, select, assumes with bounds at -1, 0, 1
         k = rng.choice(["sdivk"] * 3 + ["mulk"] * 2 + ["addk"] * 2 + ["assign", "assume", "assume", "havoc", "select", "selectself",
-                                                                      "assignself", "assignself", "subself"])
+                                                                      "assignself", "assignself", "subself", "remk", "remk", "mul0"])
         kc = lambda: rng.choice([-4, -3, -2, 2, 3, 4])
         if k == "assignself":
             # x := c*x + r with the assigned variable on the right-hand side: coefficient -1 (x := k - x, x := y - x, a toggled
@@ -79,6 +79,13 @@ def stmt(rng, ints, bools, profile="full", lhs=None, narrow=None):
                 t.append([rng.choice([1, 1, -1]), rng.choice([u for u in ints if u != v] or ints)])
             rng.shuffle(t)
             return {"op": "assign", "x": v, "e": {"k": rng.randint(-2, 2), "t": t}}
+        if k == "remk":         # remainders / unsigned division by small constants (not invertible), often as a self-update x := x % k
+            v = rng.choice(W)
+            return {"op": "arith", "f": rng.choice(["srem", "srem", "urem", "udiv"]), "x": v, "y": rng.choice([v, v, rng.choice(ints)]),
+                    "zk": 1, "z": rng.choice([2, 3, -2])}
+        if k == "mul0":         # x := y * 0 (not invertible), often as a self-update
+            v = rng.choice(W)
+            return {"op": "arith", "f": "mul", "x": v, "y": rng.choice([v, rng.choice(ints)]), "zk": 1, "z": 0}
         if k == "subself":      # x := y - x and x := x - y as arithmetic operations
             v = rng.choice(W)
             o = rng.choice([u for u in ints if u != v] or ints)
